@@ -32,12 +32,14 @@ Qed.
 
 Lemma parse_complete_atom f : forall a top fuel level,
   mp4_atom_ok f top a = true -> (top = true -> level = 0) -> (2 * cnt_atom a <= fuel)%nat ->
+  level + mp4_height a <= MP4_MAXDEPTH ->
   mp4_parse_atom fuel f (ma_off a) level = Ok (a, ma_off a + ma_len a).
 Proof.
-  induction a as [n o l h|n o l h ks IH] using mp4_atom_ind'; intros top fuel level H Hlvl Hfuel.
+  induction a as [n o l h|n o l h ks IH] using mp4_atom_ind'; intros top fuel level H Hlvl Hfuel Hdepth.
   - pose proof (atom_ok_header _ _ _ H) as Hh. cbn [ma_name ma_off ma_len ma_hdr] in *.
     pose proof (header_ok_facts _ _ _ _ _ _ Hh) as (F1 & F2 & F3 & F4 & F5 & F6 & F7).
     destruct fuel as [|fuel]; [cbn in Hfuel; lia|]. cbn [mp4_parse_atom].
+    rewrite height_leaf in Hdepth. unfold MP4_MAXDEPTH in Hdepth. destruct (level >? 64) eqn:Elv; [lia|].
     rewrite zlen_rd_in by lia. cbn [Z.ltb Z.compare Pos.compare Pos.compare_cont].
     rewrite (resolve_ok _ _ _ _ _ _ _ Hh Hlvl).
     rewrite zdrop_rd by lia. replace (8 - 4) with 4 by lia. rewrite F7.
@@ -47,51 +49,58 @@ Proof.
     destruct (atom_ok_kids _ _ _ ks H eq_refl) as (Hc & Hk). cbn [ma_name ma_off ma_len ma_hdr] in *.
     rewrite cnt_node in Hfuel.
     destruct fuel as [|fuel]; [lia|]. cbn [mp4_parse_atom].
+    rewrite height_node in Hdepth. pose proof (forest_height_nonneg ks) as Hfh0.
+    unfold MP4_MAXDEPTH in Hdepth. destruct (level >? 64) eqn:Elv; [lia|].
     rewrite zlen_rd_in by lia. cbn [Z.ltb Z.compare Pos.compare Pos.compare_cont].
     rewrite (resolve_ok _ _ _ _ _ _ _ Hh Hlvl).
     rewrite zdrop_rd by lia. replace (8 - 4) with 4 by lia. rewrite F7. rewrite Hc.
     assert (Hkids : forall fuel' p, mp4_forest_ok f false ks p (o + l) = true -> (2 * cnt_forest ks + 1 <= fuel')%nat ->
+              level + 1 + mp4_forest_height ks <= 65 ->
               mp4_parse_kids fuel' f p (o + l) (level + 1) = Ok (ks, o + l)).
-    { clear H Hk Hfuel Hh. induction ks as [|k r IHr]; intros fuel' p Hf Hfu.
+    { clear H Hk Hfuel Hh Hdepth Hfh0. induction ks as [|k r IHr]; intros fuel' p Hf Hfu Hdp.
       - apply forest_ok_nil in Hf. subst p. destruct fuel' as [|fuel']; [lia|]. cbn [mp4_parse_kids].
         rewrite Z.ltb_irrefl. reflexivity.
       - apply forest_ok_cons in Hf. destruct Hf as (H1 & H2 & H3).
         inversion IH as [|? ? Hk0 Hr0]; subst.
         pose proof (forest_ok_le _ _ _ _ _ H3) as Hle. pose proof (atom_ok_len _ _ _ H2) as Hlk.
-        cbn [cnt_forest] in Hfu. pose proof (cnt_pos k) as Hpos.
+        cbn [cnt_forest] in Hfu. pose proof (cnt_pos k) as Hpos. rewrite forest_height_cons in Hdp.
         destruct fuel' as [|fuel']; [lia|]. cbn [mp4_parse_kids].
         destruct (ma_off k <? o + l) eqn:E; [|lia].
-        rewrite (Hk0 false fuel' (level + 1) H2) by (try discriminate; lia).
+        rewrite (Hk0 false fuel' (level + 1) H2) by (try discriminate; unfold MP4_MAXDEPTH; lia).
         rewrite (IHr Hr0 fuel' _ H3) by lia. reflexivity. }
     rewrite (Hkids fuel _ Hk) by lia. reflexivity.
 Qed.
 
 Lemma parse_complete_top f ks : forall fuel p,
   mp4_forest_ok f true ks p (zlen f) = true -> (2 * cnt_forest ks + 1 <= fuel)%nat ->
+  mp4_forest_height ks <= MP4_MAXDEPTH ->
   mp4_parse_top fuel f p = Ok ks.
 Proof.
-  induction ks as [|k r IH]; intros fuel p H Hfu.
+  induction ks as [|k r IH]; intros fuel p H Hfu Hdp.
   - apply forest_ok_nil in H. subst p. destruct fuel as [|fuel]; [lia|]. cbn [mp4_parse_top].
     destruct (zlen f + 8 <=? zlen f) eqn:E; [lia|]. reflexivity.
   - apply forest_ok_cons in H. destruct H as (H1 & H2 & H3). subst p.
     pose proof (atom_ok_len _ _ _ H2) as Hlk. cbn [cnt_forest] in Hfu. pose proof (cnt_pos k) as Hpos.
     destruct fuel as [|fuel]; [lia|]. cbn [mp4_parse_top].
     destruct (ma_off k + 8 <=? zlen f) eqn:E; [|lia].
+    rewrite forest_height_cons in Hdp.
     rewrite (parse_complete_atom f k true fuel 0 H2) by (auto; lia).
     rewrite (IH fuel _ H3) by lia. reflexivity.
 Qed.
 
 (* the strict description determines mutagen's view of the file *)
-Theorem parse_complete f ks : mp4_forest_ok f true ks 0 (zlen f) = true -> mp4_atoms f = Ok ks.
+Theorem parse_complete f ks : mp4_forest_ok f true ks 0 (zlen f) = true -> mp4_forest_height ks <= MP4_MAXDEPTH ->
+  mp4_atoms f = Ok ks.
 Proof.
-  intros H. unfold mp4_atoms. apply parse_complete_top; [exact H|].
+  intros H Hd. unfold mp4_atoms. apply parse_complete_top; [exact H| |exact Hd].
   pose proof (cnt_forest_bound _ _ _ _ _ H). unfold mp4_fuel.
   assert (zlen f = Z.of_nat (length f)) by reflexivity. lia.
 Qed.
 
 (* hence a file has at most one strict description *)
 Corollary strict_description_unique f ks ks' :
-  mp4_forest_ok f true ks 0 (zlen f) = true -> mp4_forest_ok f true ks' 0 (zlen f) = true -> ks = ks'.
+  mp4_forest_ok f true ks 0 (zlen f) = true -> mp4_forest_ok f true ks' 0 (zlen f) = true ->
+  mp4_forest_height ks <= MP4_MAXDEPTH -> mp4_forest_height ks' <= MP4_MAXDEPTH -> ks = ks'.
 Proof.
-  intros H H'. apply parse_complete in H. apply parse_complete in H'. congruence.
+  intros H H' D D'. apply parse_complete in H; [|exact D]. apply parse_complete in H'; [|exact D']. congruence.
 Qed.
